@@ -15,6 +15,8 @@ import (
 //	C10|<kind>|nan-payload-or-signalling-bit-lost          NaN in, NaN of the same sign out
 //	C10|<kind>|nan-sign-lost                                NaN in, NaN of the other sign out
 //	C10|fp128|0xL-words-swapped|first-word-nan-shaped|printed-as-library-nan
+//	C10|fp128|0xL(short)|16-to-31-digits-left-padded-as-a-whole
+//	C10|<kind>|0x<K|M>(short)|parse-panic, |parse-error        short spellings the parser cannot read
 //	C10|x86_fp80|unnormal|printed-as-finite-value
 //	C10|ppc_fp128|negative-infinity-printed-as-positive
 //	C10|ppc_fp128|non-canonical-pair|replaced-by-its-sum
@@ -91,9 +93,15 @@ func classify(cs *caseT, law, inCls, outCls, diff string) (sig, what string) {
 		}
 		return generic, what
 	case "fp128":
-		if il.Form == "L" && len(il.Digs) == 32 {
-			first := u64(strings.ToUpper(q.lit[3:19]))
-			second := u64(q.lit[19:35])
+		if il.Form == "L" && len(il.Digs) >= 16 && len(il.Digs) < 32 &&
+			strings.EqualFold(cs.lib.out, "0xL"+strings.Repeat("0", 32-len(il.Digs))+q.lit[3:]) {
+			// LLVM: first word = the first 16 digits, second word = the rest; the library pads the whole spelling
+			return "C10|fp128|0xL(short)|16-to-31-digits-left-padded-as-a-whole", what
+		}
+		if il.Form == "L" {
+			// the words as LLVM's lexer splits the spelling: the first one is the LOW word
+			first := u64(cs.inR.bits[16:])
+			second := u64(cs.inR.bits[:16])
 			nanShaped := first>>48&0x7FFF == 0x7FFF && (first&0xFFFFFFFFFFFF != 0 || second != 0)
 			libNaN := strings.HasSuffix(cs.lib.out, "FFF8000000000000000000000000000") && (strings.HasPrefix(cs.lib.out, "0xL7") || strings.HasPrefix(cs.lib.out, "0xLF"))
 			if nanShaped && libNaN {
